@@ -183,6 +183,14 @@ func newEventFromTrustedJSONWithEventIDV3(eventID string, eventJSON []byte, reda
 	res.eventJSON = eventJSON
 	res.EventIDRaw = eventID
 	res.redacted = redacted
+	if eventID == "" {
+		// The caller has no event ID to give (headered JSON without one, say).
+		// It is computed now rather than on first use, so that the accessors of
+		// the event never write to it.
+		if err := res.populateEventID(roomVersion); err != nil {
+			return nil, err
+		}
+	}
 	return res, nil
 }
 
